@@ -13,7 +13,7 @@
 //   o      recorder object (Proxy): records get:/set:/del:/has: with Object.is-precise values
 //   G      present or absent (undeclared) per env;   __env = {a, b}
 //   f(...) records "f(args)" and returns its first argument; console.log(...) records; DEF is never declared
-// Objects of the grid: plain {} and objects whose valueOf records "valueOf#id".
+// Objects of the grid: plain {}, objects whose valueOf records "valueOf#id", objects whose toString records "toString#id".
 // stdout: JSON {results:[{id, errors:[{variant, error}], units:[{id, traces:{envIdx: trace}, mismatches:[{variant, env, input, output}], nmis, nenv}]}]}
 'use strict';
 const vm = require('vm');
@@ -85,6 +85,9 @@ function objectOf(id) {
   else if (d.kind === 'valueOf') {
     const prim = decodeStatic(d.v);
     ob = { valueOf() { trace.push('valueOf#' + id); return prim; } };
+  } else if (d.kind === 'toString') {          // own toString (recorded), inherited valueOf
+    const prim = decodeStatic(d.v);
+    ob = { toString() { trace.push('toString#' + id); return prim; } };
   } else throw new Error('unknown object kind ' + d.kind);
   tags.set(ob, 'obj#' + id);
   envObjs.set(id, ob);
